@@ -102,6 +102,32 @@ class TreePredict(SxContract):
             yield f"row {i} in reversed order gets the same label", prove.holds(int(out["rev"][1 - i]) == want)
 
 
+def _native(self, env, inp):
+    """float replay: the real Tree.predict on concrete thresholds / points against the reference router"""
+    X = sx.to_float(inp["X"], env)
+    thr = [float(dag.fev(sx.lift(t), env)) if isinstance(t, sx.Sx) else float(t) for t in self.tree.thresholds if t is not None]
+    ths = iter(thr)
+    t = KA.Tree()
+    label = 10
+    for j, father in enumerate(self.seq):
+        t._add_child(father, FakeSplit(self.feats[j], next(ths) if False else None, label, label + 1))
+        label += 2
+    # thresholds in node order
+    k = 0
+    for node in range(self.tree.n_nodes):
+        if self.tree.thresholds[node] is not None:
+            v = self.tree.thresholds[node]
+            t.thresholds[node] = float(dag.fev(sx.lift(v), env)) if isinstance(v, sx.Sx) else float(v)
+    got = [int(v) for v in t.predict(X)]
+    want = [spec_route(t, X[i])[0] for i in range(len(X))]
+    ok = got == want and [int(t.predict(X[i:i + 1])[0]) for i in range(len(X))] == want
+    return {"*": (ok, {"X": X.tolist(), "thresholds": [None if v is None else float(v) for v in t.thresholds], "features": t.features,
+                       "children_left": t.children_left, "predict": got, "reference": want})}
+
+
+TreePredict.native = _native
+
+
 def task(tier, seed=0):
     obs = []
     L = 3 if tier == "quick" else 4
